@@ -660,6 +660,29 @@ fn join_case(reg: Reg, front: Front, rng: &mut Prng, col: &mut Collector) {
                         col.event("rejoin_windows_after_moved_rx2");
                         check_windows(reg, front, true, &snap, &after, false, &model, &evs, txd, lead, col, if moved { "re-join-after-moved-rx2" } else { "re-join-after-remapped" }, json!({"old_session_moved_rx2": moved, "old_session_remapped_rx1": remapped}));
                     }
+                    // one time in four the device is not joined again but activated by personalisation: a new
+                    // session with a network nothing was negotiated with - the regional default windows, the
+                    // default delay of one second and the plan's own RX1 pairing
+                    if rng.chance(1, 4) {
+                        dev.join_abp(rng.arr(), rng.arr(), rng.next_u32());
+                        col.event("personalised_after_a_negotiated_session");
+                        dev.set_rng_next(rng.next_u32());
+                        let mut snap = dev.snapshot();
+                        snap.rx2_frequency = None;
+                        snap.rx2_data_rate = None;
+                        snap.rx1_dr_offset = 0;
+                        snap.rx1_delay = 1000;
+                        let ev1 = dev.ev_len();
+                        let r = dev.transact(Action::Send { data: &[7], port: 1, confirmed: false }, &Script::silent());
+                        if !matches!(r, Resp::Panic(..)) {
+                            let evs = dev.evs_since(ev1);
+                            let mut after = dev.snapshot();
+                            after.rx2_frequency = None;
+                            after.rx2_data_rate = None;
+                            check_windows(reg, front, false, &snap, &after, false, &model, &evs, txd, lead, col, "first-after-personalisation-moved-rx2", json!({"old_session_del": del, "old_session_moved_rx2": moved, "old_session_remapped_rx1": remapped}));
+                        }
+                        return;
+                    }
                     let ja2 = JoinAcceptDesc { join_nonce: rng.below(1 << 24) as u32, net_id: 1, dev_addr: rng.next_u32(), dl_settings: reg.rx2_default().1, rx_delay: *rng.pick(&[0u8, 0, 1, 3, 15]), cf_list: None };
                     let w = encode_join_accept(&creds.app_key, &ja2);
                     let r2 = dev.transact(Action::Join, &Script::rx1(w));
